@@ -49,7 +49,7 @@ def lib_list(e, st, a, kw, n):
     if isinstance(x, VSeq):
         return VSeq(x.arr, x.len, pylist=True)
     if isinstance(x, VTuple):
-        return x
+        return VTuple(list(x.items))
     raise Unsupported("list() of " + type(x).__name__)
 
 
@@ -116,6 +116,31 @@ def lib_np_append(e, st, a, kw, n):
     return VSeq(z3.Store(materialise(x.arr), x.len, v.real()), x.len + 1)
 
 
+def lib_zip(e, st, a, kw, n):
+    return VZip(list(a))
+
+
+def lib_enumerate(e, st, a, kw, n):
+    return VEnum(a[0])
+
+
+def lib_range(e, st, a, kw, n):
+    if len(a) == 1:
+        return VRange(z3.IntVal(0), a[0].e)
+    return VRange(a[0].e, a[1].e)
+
+
+def lib_np_ones_like(e, st, a, kw, n):
+    x = a[0]
+    if isinstance(x, VNum):
+        return VNum(z3.RealVal(1))
+    return VSeq(FnArr(lambda k_: z3.RealVal(1)), x.len)
+
+
+def lib_np_isscalar(e, st, a, kw, n):
+    return VBool(z3.BoolVal(isinstance(a[0], VNum)))
+
+
 def lib_dict(e, st, a, kw, n):
     return VDict(kw)
 
@@ -123,6 +148,7 @@ def lib_dict(e, st, a, kw, n):
 def install(eng):
     eng.lib.update({
         "len": lib_len, "dict": lib_dict, "list": lib_list, "np.asarray": lib_asarray, "np.array": lib_asarray,
+        "zip": lib_zip, "enumerate": lib_enumerate, "range": lib_range, "np.ones_like": lib_np_ones_like, "np.isscalar": lib_np_isscalar,
         "np.diff": lib_np_diff, "np.all": lib_np_all, "np.any": lib_np_any,
         "np.sort": lib_np_sort, "np.zeros": lib_np_zeros, "np.zeros_like": lib_np_zeros_like,
         "np.diag": lib_np_diag, "np.outer": lib_np_outer, "np.insert": lib_np_insert, "np.append": lib_np_append,
